@@ -70,6 +70,7 @@ SHRINK_KEYS = ('ops', 'script', 'services', 'chars', 'descs', 'includes', 'eatt'
 
 HORIZON_A = 900.0
 HORIZON_B = 200.0
+QUIET = 0.5  # virtual seconds; far beyond the longest generated HCI delay chain
 MAX_REQUESTS = 65536 + 16
 ATT_REQUEST_OPCODES = {0x02, 0x04, 0x06, 0x08, 0x0A, 0x0C, 0x0E, 0x10, 0x12, 0x16, 0x18, 0x20}
 
@@ -287,6 +288,7 @@ def db_case(draw):
     return {
         'kind': 'db',
         'defaults': draw(st.sampled_from([False, False, True])),
+        'delays': draw(st.sampled_from([[], [], [], [0, 1], [0, 0, 3], [2], [0, 7, 1]])),
         'server_mtu': server_mtu,
         'eatt_server_mtu': eatt_server_mtu,
         'clients': clients,
@@ -475,7 +477,9 @@ def run_db_case(ctx, case) -> None:
 
 
 def _plain(case):
-    return {k: case[k] for k in ('kind', 'defaults', 'server_mtu', 'eatt_server_mtu', 'clients', 'services', 'ops')}
+    d = {k: case[k] for k in ('kind', 'defaults', 'server_mtu', 'eatt_server_mtu', 'clients', 'services', 'ops')}
+    d['delays'] = list(case.get('delays') or [])
+    return d
 
 
 async def _drive_db(loop, case, S, fail):
@@ -485,7 +489,10 @@ async def _drive_db(loop, case, S, fail):
     config = DeviceConfiguration()
     config.gap_service_enabled = bool(case['defaults'])
     config.gatt_service_enabled = bool(case['defaults'])
-    w = world.World(1 + nclients, device_kwargs={'config': config})
+    delays = [int(x) for x in (case.get('delays') or [])]
+    if any(delays):
+        labels.add('hci_delays')
+    w = world.World(1 + nclients, delays=delays or None, device_kwargs={'config': config})
     srv = w[0].device
     server = srv.gatt_server
     server.max_mtu = int(case['server_mtu'])
@@ -850,7 +857,7 @@ async def _run_ops(loop, case, S, fail, sniffer, server, L, my_chars, sub_chars,
             if not ok:
                 raise _Abort()
             if not with_response:
-                await asyncio.sleep(0.05)
+                await asyncio.sleep(QUIET)
             now = lc['value_obj'].value
             labels.add('write:' + ('request' if with_response else 'command'))
             if n == b['mtu'] - 3:
@@ -927,7 +934,7 @@ async def _run_ops(loop, case, S, fail, sniffer, server, L, my_chars, sub_chars,
                 fail(f'{sig}/raises/{type(e).__name__}', f'{api}(0x{lc["vh"]:04X}, force={force}) raised {type(e).__name__}: {str(e)[:120]}')
                 raise _Abort()
             at_return = sniffer.pump()
-            await asyncio.sleep(0.05)
+            await asyncio.sleep(QUIET)
             sniffer.pump()
             labels.add(f'send:{api}' + (':forced' if force else ''))
             if target is not None and bearers[target]['enh']:
